@@ -21,7 +21,7 @@
 //
 // parse results:
 //   OK accept len=<bytes>
-//   OK reject kind=<Syntax|Depth|Parser|Lexer|User> len=<bytes> depth=<d> spans=<off:len,...> render=<ok|err|panic>
+//   OK reject kind=<Syntax|Depth|Parser|Lexer|User> len=<bytes> nl=<input ends in newline> depth=<d> spans=<off:len,...> render=<ok|err|panic>
 //   PANIC <file>:<line> <message>
 // analyze results:
 //   OK unparseable file=<i>
@@ -100,11 +100,13 @@ fn parse_case(text: String) -> String {
     use miette::Diagnostic;
     use veryl_parser::{Parser, ParserError};
     let len = text.len();
+    let nl = if text.ends_with('\n') { 1 } else { 0 };
+    let t0 = Instant::now();
     match Parser::parse(&text, &"case.veryl") {
         Ok(p) => {
             // the tree is dropped here, inside the small-stack thread
             drop(p);
-            format!("OK accept len={len}")
+            format!("OK accept len={len} ms={}", t0.elapsed().as_millis())
         }
         Err(e) => {
             let mut depth = 0usize;
@@ -139,13 +141,17 @@ fn parse_case(text: String) -> String {
                 !s.is_empty()
             }));
             let render = match rendered {
-                Ok(true) => "ok",
-                Ok(false) => "err",
-                Err(_) => "panic",
+                Ok(true) => "ok".to_string(),
+                Ok(false) => "err".to_string(),
+                Err(_) => {
+                    let p = LAST_PANIC.lock().unwrap_or_else(|e| e.into_inner()).clone().unwrap_or_default();
+                    format!("panic@{}", p.replace(' ', "_"))
+                }
             };
             format!(
-                "OK reject kind={kind} len={len} depth={depth} spans={} render={render}",
-                if spans.is_empty() { "-".to_string() } else { spans.join(",") }
+                "OK reject kind={kind} len={len} nl={nl} depth={depth} spans={} ms={} render={render}",
+                if spans.is_empty() { "-".to_string() } else { spans.join(",") },
+                t0.elapsed().as_millis()
             )
         }
     }
